@@ -190,7 +190,7 @@ def atom_text(a):
                            else ' %d' % m)
     if k == 'error':
         return 'ERROR ' + expr_text(a['e'])
-    if k == 'fault':
+    if k in ('fault', 'fnprint'):
         return a['text']
     if k == 'raw':
         return a['text']
@@ -677,6 +677,11 @@ class Ref(object):
             raise _Err(n)
         if k == 'fault':
             return self.do_fault(pc, a)
+        if k == 'fnprint':
+            # PRINT#1,<function call>: fails like a fault, else writes the call's value
+            nx_ = self.do_fault(pc, a)
+            res.trace.append(F(a['prints']))
+            return nx_
         raise ValueError(a)
 
     # fault statements: {'k':'fault','text':..., 'code':n, 'ok': expr|None, 'sets': var|None}
@@ -1139,7 +1144,9 @@ def count_atoms(block):
     n = 0
     for i, st in enumerate(block):
         t = st['t']
-        if t in ('tag', 'pv', 'gosub', 'bump', 'exit', 'return', 'end', 'err', 'fault', 'snext',
+        if t == 'err':
+            n += 6 if st.get('again') else 3
+        elif t in ('tag', 'pv', 'gosub', 'bump', 'exit', 'return', 'end', 'fault', 'snext',
                  'swend', 'onerr0'):
             n += 1
         elif t == 'for':
